@@ -1,4 +1,5 @@
 import Reduino.Lang.Tr
+import Reduino.Lang.Escape
 /- C++ text of a translated program, line by line, in the emitter's own format (compared whitespace-normalised). -/
 namespace Reduino.Lang
 
@@ -14,6 +15,7 @@ def MinMax.name : MinMax → String | .min => "min" | .max => "max"
 def Expr.c : Expr → String
   | .int n => toString n
   | .bool b => if b then "true" else "false"
+  | .str t => "\"" ++ String.ofList (Esc.escape t.toList) ++ "\""      -- `_escape_string_literal`
   | .var x => x
   | .bin op a b => s!"({a.c} {op.sym} {b.c})"
   | .neg a => s!"({negSym}{a.c})"
@@ -25,7 +27,7 @@ def Expr.c : Expr → String
   | .abs a => s!"abs({a.c})"
   | .mm k a b => s!"{k.name}({a.c}, {b.c})"
 
-def Ty.c : Ty → String | .int => "int" | .bool => "bool"
+def Ty.c : Ty → String | .int => "int" | .bool => "bool" | .string => "String"
 
 def tmpDeclLines : Nat → List Ty → List Expr → List String
   | k, t :: ts, e :: es => s!"{t.c} {tmpName k} = {e.c};" :: tmpDeclLines (k + 1) ts es
